@@ -69,6 +69,18 @@ Fixpoint glob_run (c : gcache) (calls : list (str * bool)) : list (outcome bool)
       end
   end.
 
+(* the cache after the same sequence (up to the first panic) *)
+Fixpoint glob_final (c : gcache) (calls : list (str * bool)) : gcache :=
+  match calls with
+  | [] => c
+  | (p, ok) :: r =>
+      match glob_get c p ok with
+      | Ok (c', _) => glob_final c' r
+      | Err _ => glob_final c r
+      | Panic => c
+      end
+  end.
+
 Definition glob_session (size : Z) (calls : list (str * bool)) : outcome (list (outcome bool)) :=
   do c <- new_glob_cache size; Ok (glob_run c calls).
 
